@@ -136,6 +136,8 @@ class Gen:
         self.vars = []          # per var: {"rank": int, "shape": tuple}
         self.rank = 0
         self.deps = set()
+        self.twins = []         # pairs of vars that evaluate to equal values held by different objects
+        self.stmts = []
 
     def fresh(self):
         self.next_id += 1
@@ -177,6 +179,10 @@ class Gen:
         r = self.rng
         x = r.random()
         if self.vars and x < p_node:
+            if hashable and r.random() < 0.75:
+                cand = [i for i, v in enumerate(self.vars) if v["shape"][0] in ("other", "unk")]
+                if cand:
+                    return ["n", r.choice(cand)]
             return ["n", r.randrange(len(self.vars))]
         if depth <= 0 or x < p_node + 0.2:
             return ["a", r.randint(1, 6)] if r.random() < 0.7 else ["i", r.randint(0, 3)]
@@ -185,15 +191,15 @@ class Gen:
             if cand:
                 p = r.choice(cand)
                 return copy.deepcopy(p) if r.random() < 0.5 else self.remember(self.clone(p))
-        kinds = ["T", "O"] if hashable else ["L", "T", "S", "D", "O", "L", "T"]
+        kinds = ["T", "O"] if hashable else ["L", "T", "S", "D", "O", "L", "T", "S", "D"]
         t = r.choice(kinds)
         n = r.choice([0, 1, 1, 2, 2, 3])
         if t in ("L", "T"):
             out = [t, self.fresh(), [self.pv(depth - 1, hashable and t == "T", p_node) for _ in range(n)]]
         elif t == "S":
-            out = ["S", self.fresh(), self.distinct([self.pv(depth - 1, True, p_node) for _ in range(n)])]
+            out = ["S", self.fresh(), self.distinct(self.twin_nodes(p_node) + [self.pv(depth - 1, True, p_node) for _ in range(n)])]
         elif t == "D":
-            ks = self.distinct([self.pv(depth - 1, True, p_node) for _ in range(n)])
+            ks = self.distinct(self.twin_nodes(p_node) + [self.pv(depth - 1, True, p_node) for _ in range(n)])
             out = ["D", self.fresh(), [[k, self.pv(depth - 1, False, p_node)] for k in ks]]
         else:
             kind = r.choice(["list", "tuple", "dict", "box"])
@@ -206,6 +212,13 @@ class Gen:
                 items = [self.pv(depth - 1, False, p_node) for _ in range(n)]
             out = ["O", self.fresh(), kind, items]
         return self.remember(out)
+
+    def twin_nodes(self, p_node):
+        """Both nodes of a pair that evaluates to equal values (they collide as set elements / dict keys)."""
+        if self.twins and p_node > 0 and self.rng.random() < 0.6:
+            a, b = self.rng.choice(self.twins)
+            return [["n", a], ["n", b]] if self.rng.random() < 0.5 else [["n", b], ["n", a]]
+        return []
 
     def remember(self, pv):
         if pv[0] not in ("a", "i", "n"):
@@ -249,6 +262,19 @@ class Gen:
         r = self.rng
         depth = r.choice([0, 1, 1, 2, 2, 3]) if self.big else r.choice([0, 1, 1, 2, 2])
         x = r.random()
+        if self.stmts and r.random() < 0.18:
+            # a twin: an earlier lit/gather/call again, with cloned (equal, not identical) argument objects
+            cand = [(i, st_) for i, st_ in enumerate(self.stmts) if st_[1][0] in ("lit", "gather", "call")
+                    and not (st_[1][0] == "gather" and st_[1][1][0] == "n")]
+            if cand:
+                _, (var, st_) = r.choice(cand)
+                if st_[0] == "call":
+                    new = ["call", st_[1], [self.clone(p) for p in st_[2]], [[nm, self.clone(p)] for nm, p in st_[3]]]
+                else:
+                    new = [st_[0], self.remember(self.clone(st_[1]))]
+                v2 = self.new_var(self.vars[var]["shape"])
+                self.twins.append((var, v2))
+                return new
         if x < 0.12 or not self.vars:
             # a literal; sometimes of a value containing Node objects (lit does not traverse)
             pv = self.pv(depth, p_node=0.05 if self.vars else 0.0)
@@ -260,9 +286,9 @@ class Gen:
             f = r.randint(0, 2)
             npos = r.choice([0, 1, 1, 2, 2, 3])
             nkw = r.choice([0, 0, 1, 2, 2, 3])
-            args = [self.pv(depth, p_node=0.6) for _ in range(npos)]
+            args = [self.pv(depth, p_node=0.45) for _ in range(npos)]
             names = r.sample(NAMES, nkw)
-            kws = [[nm, self.pv(depth, p_node=0.7)] for nm in names]
+            kws = [[nm, self.pv(depth, p_node=0.5)] for nm in names]
             # one node used several times, positionally and by keyword
             if self.vars and r.random() < 0.35 and (args or kws):
                 v = ["n", r.randrange(len(self.vars))]
@@ -274,15 +300,15 @@ class Gen:
                     args.append(list(v))
             self.new_var(("other",))
             return ["call", f, args, kws]
-        if x < 0.78:
+        if x < 0.74:
             pv = self.pv(max(depth, 1), p_node=0.45)
             if pv[0] == "n":
                 self.new_var(None, alias=pv[1])
             else:
                 self.new_var(self.shape(pv))
             return ["gather", pv]
-        if x < 0.93:
-            n = r.choice([0, 1, 2, 2, 3, 4])
+        if x < 0.94:
+            n = r.choice([0, 1, 1, 2, 2, 3, 4])
             y = r.random()
             src = None
             if y < 0.4:
@@ -322,16 +348,35 @@ class Gen:
     def program(self):
         r = self.rng
         n = r.randint(1, 12 if self.big else 7)
-        stmts = [self.stmt() for _ in range(n)]
+        stmts = []
+        for _ in range(n):
+            nv = len(self.vars)
+            st_ = self.stmt()
+            stmts.append(st_)
+            self.stmts.append((nv, st_))
         y = r.random()
-        if y < 0.06:
+        nv = len(self.vars)
+        if y < 0.05:
             out = None
-        elif y < 0.16:
+        elif y < 0.12:
             out = self.pv(2, p_node=0.0)                      # literals only
-        elif y < 0.5 and self.vars:
-            out = ["n", r.randrange(len(self.vars))]
+        elif y < 0.27 and nv:
+            out = ["n", r.randrange(nv)]
+        elif y < 0.65 and nv:
+            # several nodes (mostly late ones) in a structure, so that most of the program is needed
+            k = r.randint(1, min(5, nv))
+            picks = [["n", max(0, nv - 1 - int(r.expovariate(0.5)))] for _ in range(k)]
+            t = r.choice(["L", "T", "L", "T", "D", "S"])
+            if t == "D":
+                out = ["D", self.fresh(), [[kk, self.pv(1, p_node=0.5)] for kk in self.distinct(picks)]]
+            elif t == "S":
+                out = ["S", self.fresh(), self.distinct(picks)]
+            else:
+                out = [t, self.fresh(), picks + [self.pv(2, p_node=0.4) for _ in range(r.choice([0, 0, 1]))]]
         else:
-            out = self.pv(r.choice([1, 2, 2, 3]), p_node=0.55)
+            out = self.pv(r.choice([1, 2, 2, 3]), p_node=0.5)
+            if out[0] in ("a", "i") and nv:
+                out = ["T", self.fresh(), [["n", r.randrange(nv)] for _ in range(r.randint(1, 3))]]
         return {"stmts": stmts, "out": out}
 
 
@@ -380,6 +425,7 @@ class Session:
         self.call_vars = []
         self.plan = uberjob.Plan()
         self.ref = {}           # id(Node) -> reference value (direct evaluation), for statement nodes
+        self.events = {"rebuilt": 0, "collapsed": 0, "unhashable": 0, "unpack_len": 0, "unpack_type": 0, "unpack_ok": 0}
         self.extra_deps = {}    # id(Node) -> [Node]   (add_dependency)
         self.arg_deps = {}      # id(Node) -> [Node]
         self.build()
@@ -588,16 +634,24 @@ class Session:
             if any(a is FAIL or b is FAIL for a, b in pairs):
                 return FAIL
             try:
-                return dict(pairs)
+                out = dict(pairs)
             except TypeError:
+                self.events["unhashable"] += 1
                 return FAIL
+            self.events["rebuilt"] += 1
+            self.events["collapsed"] += len(out) < len(pairs)
+            return out
         cs = [self.direct(c, memo) for c in x]
         if any(c is FAIL for c in cs):
             return FAIL
         try:
-            return t(cs)
+            out = t(cs)
         except TypeError:
+            self.events["unhashable"] += 1
             return FAIL
+        self.events["rebuilt"] += 1
+        self.events["collapsed"] += len(out) < len(cs)
+        return out
 
     def value(self, node, memo):
         k = id(node)
@@ -624,6 +678,8 @@ class Session:
                     items = list(iter(s))
                 except TypeError:
                     items = None
+                if i == 0:
+                    self.events["unpack_type" if items is None else "unpack_ok" if len(items) == n else "unpack_len"] += 1
                 if items is not None and len(items) == n:         # "unpack yields exactly the n items"
                     v = items[i]
         memo[k] = v
@@ -852,7 +908,7 @@ FIXED = [
 
 def explore(ctx):
     quick = ctx.tier == "quick"
-    n_prog = 400 if quick else 12000
+    n_prog = 600 if quick else 20000
     configs = CONFIGS_Q if quick else CONFIGS_T
     rng = random.Random(ctx.seed * 1000003 + 2)
     viol, dis = [], []
@@ -890,6 +946,8 @@ def explore(ctx):
             cov["with_fresh_container"] += st["fresh"]
             cov["with_kept_identity"] += st["kept"]
             cov["recorded_calls"] += st["rec"]
+            for k, n in st["events"].items():
+                cov["ev_" + k] = cov.get("ev_" + k, 0) + (n > 0)
             distinct.add(st["res"])
             txt = repr(p)
             cov["with_unpack"] += "'unpack'" in txt
@@ -914,8 +972,8 @@ def explore(ctx):
                    "recursive reference evaluator")
     cov["samples"] = [progs[len(FIXED)], progs[len(FIXED) + 1]] if len(progs) > len(FIXED) + 1 else progs[:1]
     for k in ("failed_runs", "with_fresh_container", "with_kept_identity", "with_unpack", "with_kwargs", "with_opaque",
-              "with_set_or_dict"):
-        if cov["programs"] >= 300 and cov[k] * 50 < cov["programs"]:
+              "with_set_or_dict", "ev_rebuilt", "ev_collapsed", "ev_unhashable", "ev_unpack_len", "ev_unpack_type", "ev_unpack_ok"):
+        if cov["programs"] >= 300 and cov.get(k, 0) * 200 < cov["programs"]:
             dis.append({"layer": "generator-coverage", "what": "%s = %d of %d programs" % (k, cov[k], cov["programs"])})
     return {"violations": viol, "disagreements": dis, "coverage": cov}
 
@@ -924,8 +982,9 @@ def check_session(s, prog, model_reply, configs, seed):
     viol, dis = [], []
     ref_res, ref_recs = s.reference()
     res, recs, _ = s.run(1, None)
+    allrec = res + "".join(h for hs in recs.values() for h in hs)
     stats = {"failed": res == "FAIL", "res": res, "rec": sum(len(v) for v in recs.values()),
-             "fresh": "~" in res, "kept": "#" in res}
+             "fresh": "~" in allrec, "kept": "#" in allrec, "events": dict(s.events)}
 
     def compare(res_, recs_, what):
         if res_ != ref_res:
